@@ -43,6 +43,15 @@ def streams(rng, tier):
         ("http-bad-header", b"PUT /x HTTP/1.1\r\nNoColonHere\r\n\r\n", 5),
         ("http-unterminated", b"HEAD / HTTP/1.1\r\nA: b\r\nC: d\r\n", 6),
         ("rpc-reply-typed", gens.rpc_call(xid=0x81020304, vers=2, proc=3, tcp=True, mtype=1), 28),
+        # a complete request behind leading bytes that complete no signature: the stream is never answered, however it is cut
+        ("http-junk-prefix-1", b"XGET / HTTP/1.1\r\nHost: a\r\n\r\n", 5),
+        ("http-junk-prefix-2", b"POGET /x HTTP/1.0\r\n\r\n", 5),
+        ("http-lowercase-then-request", b"get /\r\nGET / HTTP/1.1\r\n\r\n", 5),
+        # calls WITH arguments after the verifier (GETPORT / GETADDR for another program): the reply must not depend on
+        # whether the arguments arrive in the segment that completes the call header
+        ("rpc-getport-args", gens.rpc_call(xid=0x81020304, vers=2, proc=3, tcp=True, body=__import__("struct").pack("!IIII", 100003, 3, 6, 0)), 28),
+        ("rpc-getaddr-args", gens.rpc_call(xid=0x81020304, vers=4, proc=3, tcp=True, cred=b"abcd",
+                                           body=__import__("struct").pack("!II", 100005, 3) + b"\0\0\0\3tcp\0" + b"\0\0\0\0" * 2), 28),
     ]
     if tier == "thorough":
         out.append(("http-long", gens.http_req(headers=[(b"H%d" % i, b"v" * i) for i in range(8)]), 5))
